@@ -96,6 +96,7 @@ Inductive case : Set :=
            (obs : list (Z * list dcev)) (newdc : list chan) (tx : list (Z * list Z)) (ctl : list Z)
            (sack : option Z) (states : list (Z * Z))
            (spec : option (list schan * list sub * Z))
+           (rwnd0 : Z) (arwnd : option Z)   (* configured receive window; a_rwnd of the last SACK *)
 (* send side: channels, workload in the order the messages left, initial TSN, DATA chunks emitted *)
 | SendCase (sc : list schan) (W : list sub) (t0 : Z) (out : list chunk)
 (* DataChannelOpen::unmarshal on arbitrary bytes / marshal of a message *)
@@ -104,23 +105,25 @@ Inductive case : Set :=
 
 Record recv_out : Set := mkOut {
   m_obs : list (Z * list dcev); m_newdc : list chan; m_tx : list (Z * list Z); m_ctl : list Z;
-  m_cum : Z; m_states : list (Z * option Z); m_extra_sids : list Z }.
+  m_cum : Z; m_states : list (Z * option Z); m_extra_sids : list Z; m_arwnd : Z; m_used : Z; m_queued : Z }.
 
-Definition recv_model (chans : list chan) (hist : list input) (sids : list Z) : recv_out :=
+Definition recv_model (chans : list chan) (hist : list input) (sids : list Z) (rwnd0 : Z) : recv_out :=
   let '(st, evs) := run (init_r 0 chans) hist in
   mkOut (map (fun s => (s, evs_of s evs)) sids) (newdcs evs) (txdceps evs) (txctls evs) (r_cum st)
         (map (fun s => (s, state_of s (a_chans (r_app st)))) sids)
-        (filter (fun s => negb (existsb (Z.eqb s) sids)) (ev_sids evs)).
+        (filter (fun s => negb (existsb (Z.eqb s) sids)) (ev_sids evs))
+        (adv_rwnd rwnd0 st) (r_used st) (Z.of_nat (length (r_rq st))).
 
 Definition check_case (c : case) : bool :=
   match c with
-  | RecvCase chans hist obs newdc tx ctl sack states spec =>
-    let m := recv_model chans hist (map fst obs) in
+  | RecvCase chans hist obs newdc tx ctl sack states spec rwnd0 arwnd =>
+    let m := recv_model chans hist (map fst obs) rwnd0 in
     list_eqb (fun a b => (fst a =? fst b) && list_eqb dcev_eqb (snd a) (snd b)) (m_obs m) obs
     && list_eqb chan_cfg_eqb (m_newdc m) newdc
     && list_eqb (fun a b => (fst a =? fst b) && zl_eqb (snd a) (snd b)) (m_tx m) tx
     && list_eqb Z.eqb (m_ctl m) ctl
     && match sack with Some s => s =? m_cum m | None => true end
+    && match arwnd with Some w => w =? m_arwnd m | None => true end
     && forallb (fun p => oz_eqb (state_of (fst p) (a_chans (r_app (fst (run (init_r 0 chans) hist))))) (Some (snd p))) states
     && is_nil (m_extra_sids m)
     && match spec with
@@ -145,7 +148,7 @@ Inductive mout : Set :=
 | MMar (b : list Z).
 Definition model_out (c : case) : mout :=
   match c with
-  | RecvCase chans hist obs _ _ _ _ _ _ => MRecv (recv_model chans hist (map fst obs))
+  | RecvCase chans hist obs _ _ _ _ _ _ rwnd0 _ => MRecv (recv_model chans hist (map fst obs) rwnd0)
   | SendCase sc W t0 _ => MSend (chunks sc W t0)
   | UnmarshalCase bytes _ => MUnm (unmarshal_open bytes)
   | MarshalCase o _ => MMar (marshal_open o)
